@@ -268,6 +268,19 @@ def setitem(eng, p, base, idx, v):
         if not (-len(items) <= idx < len(items)): raise Unsupported('index out of range on concrete list')
         items[idx] = v
         p.heap[base.oid] = ('list', tuple(items)); return
+    if k == 'arr' and isinstance(idx, tuple) and idx and idx[0] == 'slice':
+        # xs[lo:hi] = [a, b, ...] with a literal-length right-hand side that provably has hi - lo elements: element-wise stores
+        if idx[3] is not None: raise Unsupported('slice assignment with a step')
+        lo = eng.to_int(p, idx[1], 'slice') if idx[1] is not None else IntVal(0)
+        hi = eng.to_int(p, idx[2], 'slice') if idx[2] is not None else c[2]
+        vc = content(p, v) if isinstance(v, Ref) else None
+        if vc is None or vc[0] != 'list': raise Unsupported('slice assignment from a non-literal list')
+        if not z3.is_true(z3.simplify(hi - lo == len(vc[1]))): raise Unsupported('slice assignment that may change the length of the list')
+        eng.oblige(p, 'list.index_in_range', And(lo >= 0, hi <= c[2]), 'pre')
+        arr = c[1]
+        for j, x in enumerate(vc[1]):
+            arr = Store(arr, lo + j, typed_elem(eng, p, c, x))
+        p.heap[base.oid] = ('arr', arr, c[2], c[3]) + tuple(c[4:]); return
     if k == 'arr':
         i = norm_index(eng, p, idx, c[2], 'list')
         p.heap[base.oid] = ('arr', Store(c[1], i, typed_elem(eng, p, c, v)), c[2], c[3]) + tuple(c[4:]); return
